@@ -286,6 +286,12 @@ def translate(repo):
         raise Unsupported("window bounds not integral")
     out.append("Definition src_win_start (n k w : Z) : Z := %s." % s0)
     out.append("Definition src_win_stop (n k w : Z) : Z := %s." % s1)
+    # the window is returned as computed (float64), no cast back to the input's storage type
+    outs = [ast.unparse(n.value) for n in ast.walk(sm) if isinstance(n, ast.Assign) and ast.unparse(n.targets[0]) == "_out"
+            and "slicer" in ast.unparse(n.value)]
+    if outs != ["_out[slicer]"]:
+        raise Unsupported("window statement: %r" % outs)
+    out.append("Definition src_window_not_cast : bool := true.")
     # normalisation
     norm = None
     for n in ast.walk(sm):
@@ -328,6 +334,11 @@ def translate(repo):
     if len(loops) != 1 or [ast.unparse(b) for b in loops[0].body] != ["_X[i] /= f[i]"]:
         raise Unsupported("scaling loop `_X[i] /= f[i]`")
     out.append("Definition src_sigma_always_applied : bool := true.")
+    # the points are copied before they are rescaled in place
+    xs = [ast.unparse(n.value) for n in ns.body if isinstance(n, ast.Assign) and ast.unparse(n.targets[0]) == "_X"]
+    if xs[:2] != ["np.array(X)", "np.rollaxis(_X, axis)"]:
+        raise Unsupported("_normsq must copy the points first: %r" % xs[:2])
+    out.append("Definition src_normsq_copies_points : bool := true.")
     d2 = _assign_to(ns, "D2")
     if ast.unparse(d2) != "np.sum(_X ** 2, axis=0)":
         raise Unsupported("D2: " + ast.unparse(d2))
